@@ -220,7 +220,20 @@ def generated_data_tx(r, rate, conf, n, preambles, cc, sap, payload_kind="random
                          is_response_requested=conf, pad_octet_count=poc, llid_destination=dst, llid_source=src, blocks_to_follow=nb,
                          full_message_flag=FullMessageFlag.FirstTryToCompletePacket, resynchronize_flag=ResynchronizeFlag(0) if conf else None,
                          fragment_sequence_number=8, is_group=r.random() < 0.5)
-    bursts = TransmissionGenerator.generate_full_data_transmission(packet_type=rate_class(rate), userdata=payload, data_header=hdr,
+    userdata = payload
+    if r.random() < 0.15:
+        from okdmr.dmrlib.utils.bytes_interface import BytesInterface
+
+        class _Wrapped(BytesInterface):  # the generator documents Union[bytes, BytesInterface]: a PDU object that serialises to the payload
+            def as_bytes(self, endian="big"):
+                return payload
+
+            @staticmethod
+            def from_bytes(data, endian="big"):
+                return None
+
+        userdata = _Wrapped()
+    bursts = TransmissionGenerator.generate_full_data_transmission(packet_type=rate_class(rate), userdata=userdata, data_header=hdr,
                                                                    csbk_count=preambles, colour_code=cc)
     tags = ["pre"] * preambles + ["hdr"] + ["rate"] * nb
     assert len(tags) == len(bursts), (len(tags), len(bursts))
@@ -291,6 +304,19 @@ def make_recorder_class():
     return Rec
 
 
+class _AsciiSink(io.TextIOWrapper):
+    def __init__(self):
+        super().__init__(io.BytesIO(), encoding="ascii", errors="strict", write_through=True)
+
+    def truncate(self, n=None):
+        self.buffer.seek(0)
+        self.buffer.truncate()
+        return 0
+
+    def seek(self, *a):
+        return 0
+
+
 class Receiver:
     """the receiving side + bookkeeping of everything the oracles need"""
 
@@ -324,7 +350,8 @@ class Receiver:
             self.second = Rec("second", self.seam)
             obs.append(self.second)
         self.watcher = TransmissionWatcher(observers=obs)
-        self.sink = io.StringIO()
+        # what the library prints goes to a sink; in a third of the runs the sink is an ASCII-only text stream, like stdout under LC_ALL=C
+        self.sink = io.StringIO() if knobs.get("entropy_seed", 1) % 3 else _AsciiSink()
         self.wd = Watchdog(5.0)
         self.slots = {}
         self.log = core.EventLog()
